@@ -33,7 +33,7 @@ def hist(prop, focus=None, q=400, t=20000, s=1500):
                 search=[('hist', ['-n', s, '-scans', 12] + f)])
 
 
-HOOK_COMMITS = ['8b60f71']
+HOOK_COMMITS = ['8b60f71', 'c4143bc']
 FIX_COMMITS = ['36808c6 (C09)', '9968ae8 (C19)', '4e44fa6 (C04)', '1c752d6 (C02)', '0ec6acc (C18)', 'a3c0a98 (C20)', 'be6e20c (C16)', '839495b (C07)']
 NOT_YET = {}
 
